@@ -17,7 +17,7 @@ def le(v, n):
 
 def boundary(v, n, size):
     m = (1 << (8 * n)) - 1
-    vals = {0, 1, v + 1, v - 1, v + 4, v - 4, 0xFFFF, 1 << 31, (1 << 31) - 1, 1 << 63, (1 << 63) - 1, m, m - 1, size, size + 1, size - 1, size * 2, v ^ 0x80, v * 2}
+    vals = {0, 1, 2, 3, 4, 5, 7, 8, 16, 47, 48, 1019, 1020, 1023, 1024, 1025, 2048, v + 1, v - 1, v + 4, v - 4, v + 16, 0xFFFF, 0x10000, 1 << 31, (1 << 31) - 1, 1 << 63, (1 << 63) - 1, m, m - 1, size, size + 1, size - 1, size * 2, v ^ 0x80, v * 2}
     return sorted({x & m for x in vals if x >= 0} - {v & m})
 
 
